@@ -837,6 +837,9 @@ func (s *Sim) build(a *Action, bs *BState) world.Req {
 		}
 	case "visit":
 		rq.Method = "GET"
+		if m := a.opt("method"); m != "" {
+			rq.Method = m
+		}
 		rq.Path = a.opt("route")
 	case "get":
 		rq.Method = "GET"
